@@ -92,7 +92,7 @@ EXC_KINDS = ["ValueError", "KeyError", "RuntimeError", "OSError", "TimeoutError"
              "Weird", "UnicodeDecodeError", "ResponseWrappingError", "LibraryShutdown", "NetworkError",
              "UnparsableMessage", "NotObservable"]
 NONMSG_KINDS = ["None", "str", "int", "bytes", "dict", "list", "tuple", "float", "object", "type"]
-RFAIL_KINDS = ["raises", "none", "badmsg", "raises_direct", "str", "tuple"]
+RFAIL_KINDS = ["raises", "none", "badmsg", "raises_direct", "str", "tuple", "nocode", "reqcode", "badrepr"]
 
 
 def _nonmsg(kind, k, aiocoap):
@@ -133,6 +133,22 @@ def _rfail(kind, k, aiocoap):
                 return text if kind == "str" else (aiocoap.Message(code=aiocoap.Code(128), payload=text.encode()),)
 
         raise WrongTypeRenderer(text)
+    if kind in ("nocode", "reqcode"):
+        # an error renderer that hands back a message which is no response: no code / a request code
+        class CodelessRenderer(E.RenderableError):
+            def to_message(self):
+                if kind == "nocode":
+                    return aiocoap.Message(payload=text.encode())
+                return aiocoap.Message(code=aiocoap.GET, payload=text.encode())
+
+        raise CodelessRenderer(text)
+    if kind == "badrepr":
+        # the conversion of the error (which starts with logging its repr) fails before to_message
+        class BadRepr(E.BadRequest):
+            def __repr__(self):
+                raise RuntimeError(text)
+
+        raise BadRepr(text)
     if kind == "badmsg":
         # a diagnostic that is not a str: `self.message.encode` fails inside to_message
         raise E.BadRequest(12345)
